@@ -188,6 +188,9 @@ def _mk_seq_type(kind, real):
             return r
         if isinstance(x, (SymInt,)):
             raise Undecided("%s(symbolic length)" % kind)
+        if kind == "bytearray" and not a and isinstance(x, _b.tuple) and len(x) == 0 and S.active():
+            # bytearray(): a fresh, empty, mutable byte sequence (proxy, so that symbolic bytes can be appended)
+            return SymSeq(S.empty_seq(), "bytearray", None)
         if isinstance(x, (_b.list, _b.tuple)) and _anysym(*x):
             if kind in ("bytes", "bytearray"):
                 for v in x:
@@ -200,7 +203,14 @@ def _mk_seq_type(kind, real):
         return real(x, *a)
     ns = {"__new__": _new}
     if kind in ("bytes", "bytearray"):
-        ns["fromhex"] = staticmethod(real.fromhex)
+        def _fromhex(text, real=real):
+            # hex text carrying abstract tokens (models.hexlify): the bytes the tokens stand for (T4 inverse pair)
+            if isinstance(text, _b.str) and "\x01HEX" in text:
+                from . import models as _MD
+                r = _MD.unhex_text(text)
+                return SymSeq(r.e, kind, r.elem_bounds) if isinstance(r, SymSeq) else real(r)
+            return real.fromhex(text)
+        ns["fromhex"] = staticmethod(_fromhex)
     return _Meta("sym_" + kind, (), ns)
 
 
